@@ -553,6 +553,68 @@ var rulePragmaValue = &core.Rule{ID: "R12.7", Min: 1,
 			case core.CalleeIs(&call.Call, "strings", "TrimSpace"):
 				return true
 			}
+			// a module helper that skips leading HTML whitespace by hand: returns s[i:] where i was advanced over
+			// the bytes a predicate accepts, and the predicate (tabulated over 0..255) accepts exactly the five
+			if h := call.Call.StaticCallee(); h != nil && core.InMod(h) && h.Blocks != nil && len(h.Params) == 1 && core.IsString(h.Params[0].Type()) {
+				rs := core.Returns(h)
+				if len(rs) != 1 {
+					return false
+				}
+				sl, ok := rs[0].Results[0].(*ssa.Slice)
+				if !ok || sl.X != ssa.Value(h.Params[0]) || sl.High != nil {
+					return false
+				}
+				idx, ok := sl.Low.(*ssa.Phi)
+				if !ok {
+					return false
+				}
+				// the phi counts from 0 in steps of one, and the loop continues exactly while pred(s[idx])
+				for i, pr := range idx.Block().Preds {
+					if idx.Block().Dominates(pr) {
+						add, ok := idx.Edges[i].(*ssa.BinOp)
+						if !ok || add.Op != token.ADD || add.X != ssa.Value(idx) || !core.IsConstInt(add.Y, 1) {
+							return false
+						}
+					} else if !core.IsConstInt(idx.Edges[i], 0) {
+						return false
+					}
+				}
+				var pred *ssa.Function
+				n := 0
+				for _, ci := range core.Calls(h) {
+					if g := ci.Common().StaticCallee(); g != nil && core.InMod(g) && len(g.Params) == 1 && len(ci.Common().Args) == 1 {
+						if ix, ok := ci.Common().Args[0].(*ssa.Index); ok && ix.X == ssa.Value(h.Params[0]) && ix.Index == ssa.Value(idx) {
+							pred = g
+						}
+						if lk, ok := ci.Common().Args[0].(*ssa.Lookup); ok && lk.X == ssa.Value(h.Params[0]) && lk.Index == ssa.Value(idx) {
+							pred = g
+						}
+					}
+					if _, isB := ci.Common().Value.(*ssa.Builtin); !isB {
+						n++
+					}
+				}
+				if pred == nil || n != 1 {
+					return false
+				}
+				for v := 0; v < 256; v++ {
+					ev := newEval(c)
+					ev.Env = fde.Env{pred.Params[0]: constant.MakeInt64(int64(v))}
+					exits, err := ev.Walk(pred.Blocks[0], nil, nil, 0)
+					if err != nil || len(exits) != 1 || exits[0].Ret == nil {
+						return false
+					}
+					got, ok := exits[0].ValAt(ev, exits[0].Ret.Results[0])
+					if !ok || got.Kind() != constant.Bool {
+						return false
+					}
+					want := v == ' ' || v == '\t' || v == '\n' || v == '\f' || v == '\r'
+					if constant.BoolVal(got) != want {
+						return false
+					}
+				}
+				return true
+			}
 			return false
 		}
 		n := 0
